@@ -60,4 +60,6 @@ def run(ctx):
     S.dt_minlen(ctx, L)
     ctx.rule("R-REPLY-ARMS", "CTS with a grant stores window end, sending state, immediate deadline and wakes the job thread; the end-of-message acknowledge tells the listeners and finishes the session", floor=2)
     S.reply_arms(ctx, L)
+    ctx.rule("R-FD-SENDER", "job pass: each segment sent advances the index; the end-of-message status follows the last segment / ends a broadcast", floor=3)
+    fdseg.fd_sender_steps(ctx, L)
     return "structural necessary conditions of C02 decided on j1939_22.py"
